@@ -1,5 +1,6 @@
 /- Stage 4: worlds, invariants and goals of the simulation with functions. -/
 import Nlmodel.Proofs.Lemmas.SimFnFrag
+import Nlmodel.Proofs.Lemmas.AtLimit
 namespace Nl
 namespace SimF
 open Spec Sim
@@ -50,8 +51,19 @@ structure WOK (W : World) : Prop where
   fns : ∀ fid info, W.ft fid = some info → FnOK W info
 
 def Fails (C : Code) (s : VM) (er : Err) : Prop := ∃ n s1 s2, execN C n s = some s1 ∧ step C s1 = .error er s2
-/-- the machine hits one of its limits (stack height / number of frames at a call) -/
-def Ovf (C : Code) (s : VM) : Prop := Fails C s .index
+/-- the machine hits one of its limits (stack height / number of frames at a call): after finitely many good
+    steps it stands at a `Call` whose limit check fails (`AtLimit`) — no other index error counts -/
+def Ovf (C : Code) (s : VM) : Prop := ∃ n s1, execN C n s = some s1 ∧ AtLimit C s1
+
+theorem Ovf.after {C : Code} {s s1 : VM} (n : Nat) (h1 : execN C n s = some s1) (h2 : Ovf C s1) : Ovf C s := by
+  obtain ⟨m, a, ha, hb⟩ := h2
+  exact ⟨n + m, a, execN_add C n m s s1 a h1 ha, hb⟩
+
+/-- what is observable of it: an index error after finitely many steps -/
+theorem Ovf.fails {C : Code} {s : VM} (h : Ovf C s) : Fails C s .index := by
+  obtain ⟨n, s1, hn, hl⟩ := h
+  obtain ⟨s2, hs⟩ := hl.step
+  exact ⟨n, s1, s2, hn, hs⟩
 
 theorem Fails.after {C : Code} {s s1 : VM} {er : Err} (n : Nat) (h1 : execN C n s = some s1) (h2 : Fails C s1 er) :
     Fails C s er := by
